@@ -45,6 +45,7 @@ class Generator:
     def __init__(self, seed=None):
         self.seed = seed
         self.calls = []
+        self.draws = []
         self.k = 0
         LOG.append(self)
 
@@ -78,6 +79,9 @@ class Generator:
                 c.assume(v != w)
             draws.append(v)
             out[i] = v
+        self.draws.append(('choice', a, list(draws)))
+        if c.mode == 'conc':
+            return _np.array([int(v) for v in draws], dtype=_np.int64)
         return out
 
     def multinomial(self, n, pvals, size=None):
@@ -101,6 +105,9 @@ class Generator:
             out[i] = v
             tot = tot + v
         c.assume(core.eq(tot, n) if c.mode == 'conc' else (tot == n))
+        self.draws.append(('multinomial', n, list(out)))
+        if c.mode == 'conc':
+            return _np.array([int(v) for v in out], dtype=_np.int64)
         return out
 
     def shuffle(self, arr):
